@@ -562,7 +562,7 @@ func (u *Universe) build(run *Run, t reflect.Type, vp string, o *Outcome) reflec
 	case reflect.String:
 		s := o.V
 		if o.K != "val" {
-			if t.Name() != "string" && t.PkgPath() != "" {
+			if t.Name() != "string" && t.PkgPath() != "" && u.isEnum(t.Name()) {
 				s = u.defaultEnum(t.Name())
 			} else {
 				s = vp
@@ -608,6 +608,11 @@ func (u *Universe) defaultImpl(abstract string) string {
 		return ""
 	}
 	return names[0]
+}
+
+func (u *Universe) isEnum(goName string) bool {
+	def := u.Schema.Types[u.gqlTypeByGoName(goName)]
+	return def != nil && def.Kind == ast.Enum
 }
 
 func (u *Universe) defaultEnum(goName string) string {
